@@ -50,6 +50,9 @@ pub struct Acc {
     pub fams: BTreeMap<String, u64>,
     pub faults_fired: BTreeMap<String, u64>,
     pub counters: BTreeMap<String, u64>,
+    /// merged by maximum (worst observed values)
+    #[serde(default)]
+    pub maxima: BTreeMap<String, u64>,
     pub abandoned_samples: Vec<String>,
     pub samples: Vec<serde_json::Value>,
     pub violations: Vec<Case>,
@@ -91,6 +94,10 @@ impl Acc {
         }
         for (k, v) in o.counters {
             *self.counters.entry(k).or_insert(0) += v;
+        }
+        for (k, v) in o.maxima {
+            let e = self.maxima.entry(k).or_insert(0);
+            *e = (*e).max(v);
         }
         for s in o.abandoned_samples {
             if self.abandoned_samples.len() < 5 {
@@ -697,6 +704,9 @@ pub fn check_main(engine: &dyn Engine, tier: Tier) -> i32 {
     coverage.insert("step_families".into(), serde_json::to_value(&total.fams).unwrap());
     coverage.insert("probes".into(), serde_json::to_value(&total.probes).unwrap());
     coverage.insert("counters".into(), serde_json::to_value(&total.counters).unwrap());
+    if !total.maxima.is_empty() {
+        coverage.insert("worst_observed".into(), serde_json::to_value(&total.maxima).unwrap());
+    }
     coverage.insert("state_signatures".into(), j(total.states.len() as u64));
     coverage.insert("determinism".into(), serde_json::json!({"rechecked": det_checked, "mismatches": det_mismatch}));
     coverage.insert("components".into(), serde_json::json!({"real": info.real, "stubbed": info.stubbed}));
